@@ -394,11 +394,11 @@ def r4_saved_restored(ctx, fields, setters, pairing):
             core = v[2] if v[0] == "cast" else v
             if core[0] == "call" and core[1] in getter_of:
                 restored[getter_of[core[1]]] = d["p"][1]["name"]
-    undo = [f_ for f_ in saved if f_ in restored or f_.startswith("previous")]
+    undo = [f_ for f_ in saved if f_ in restored or "previous" in f_]
     for fld in sorted(set(undo) | {f_ for f_ in restored}):
         ok = fld in saved and fld in restored and saved[fld] == restored[fld]
         ctx.ob(rid, "undo-field:%s" % fld, ok,
-               "" if ok else "move field %s: generation saves board field %s, unmake restores board field %s" % (fld, saved.get(fld), restored.get(fld)),
+               "" if ok else ("move field %s: generation saves board field %s, but unmake does not assign that getter's value back to it unchanged (it is dropped or passed through another computation)" % (fld, saved.get(fld)) if fld not in restored else "move field %s: generation saves board field %s, unmake restores board field %s" % (fld, saved.get(fld), restored.get(fld))),
                ctx.where(un), sample={"move_field": fld, "saved_from": saved.get(fld), "restored_to": restored.get(fld)})
 
 
@@ -410,6 +410,8 @@ def run(ctx):
     pairing = MF.pair(fields, setters)
     ctx.extra["move_layout"] = {n: {"mask": hex(v["mask"]), "shift": v["shift"]} for n, v in sorted(fields.items(), key=lambda kv: kv[1]["shift"])}
     r1_undo_width(ctx, fields, setters, pairing)
+    from . import c02 as _c02
+    _c02.r1_layout(ctx, fields)
     r2_write_sets(ctx)
     r3_flag_mirror(ctx, fields)
     r3_castle_swap(ctx)
